@@ -3,8 +3,13 @@
 //!   twincheck replay <path>
 
 mod c02;
+mod tw;
 mod c08;
 mod c09;
+
+// Every SelectExecutor allocates a zeroed 10 MiB arena per query; pool those blocks (see vcore::bigalloc)
+#[global_allocator]
+static GLOBAL: vcore::bigalloc::ArenaCache = vcore::bigalloc::ArenaCache;
 
 fn usage() -> ! {
     eprintln!("usage: twincheck check <C02|C08|C09> <quick|thorough> | twincheck replay <path>");
